@@ -25,6 +25,7 @@ EXPLANATION = (
     "(truncating), subnano = frac(inner), and WireTimestamp::from(Time) uses exactly these. W-CTX/W-ACTIONS "
     "compile-fail witnesses run in the thorough tier."
     " TX-9: no assignment to a *_seq_ids field outside construction (a generator is only advanced by generate()). TX-10 (shared with C07 NI-1): requests reach a handler only after the sdoId AND domain filter, which is what makes the `..request_header` copy in responses carry the instance's sdoId/domain."
+    " TX-11: base_header takes sdoId/domainNumber from defaultDS and port identity / sequence id from its arguments. TX-12: ForwardedTLV::size() is the TLV's wire size."
 )
 NOT_DECIDED = "numeric exactness of the fixed-point operations (C16); that emitted frames decode (C04/C15)"
 
